@@ -419,12 +419,17 @@ def run(ck):
                       "n in {0,1,2,3,5} and/or by timer, manual commits, commit acknowledgements / retriable / unretriable / non-Kafka errors, "
                       "processor success / failure / slow / calling stop or commit, stop, shutdown, restarts; each history ends at an arbitrary "
                       "point (process death) and a fresh consumer is started from OFFSET_COMMITTED against the same store; plus arbitrary "
-                      "reply streams.  A case is non-trivial if a commit request was sent; distinct = distinct canonical case lines.")
+                      "reply streams; commits the coordinator applied although the answer was lost; implementation-only families (restart from the start "
+                      "Deferred's errback, processor Deferred failing with its own CancelledError); composed lives over the real KafkaClient incl. one "
+                      "directed life per group error code.  A case is non-trivial if a commit request was sent; distinct = distinct canonical case lines.")
     ck.assumptions += [
         "hand-written Gallina model Model/Consumer.v stands for afkak/consumer.py:290-1131 (tie: this run's full-trace correspondence)",
         "the coordinator's offset store is a simulation: it records the offset of a commit request when (and only when) it acknowledges it",
         "process death = the event list ends; the restarted process is a fresh Consumer object (nothing survives but the broker's log and store)",
-        "theorems assume the interpreter's fuel is not exhausted (run_fuel_ok); an OFuel output on a generated case would be reported",
+        "fuel: the *_any_fuel theorems need no fuel hypothesis (fuel_enough is proved); the other run-level forms assume run_fuel_ok; the harness derives "
+        "its fuel from the input size and an OFuel output of the model on a generated case would be reported",
+        "the Python monitors (REQ/REQ2, PW/PWB, C3, log, store) are hand re-writes of the Coq automata; only the trace correspondence ties them to the theorems",
+        "the restart-from-errback family (F-C03-3), the processor-timeout family and the composed stream over the real KafkaClient are outside the model: monitors only",
         "extraction: ExtrOcamlBasic; a sample of cases is re-evaluated inside Coq by vm_compute",
     ]
     ck.cov["trusted_base"] += ["correspondence harness harness/props/C03.py, C02.py, consumer_lib.py, consumer_log_lib.py + harness/vlib.py",
